@@ -86,8 +86,8 @@ type Gen struct {
 	Keys   []string
 	IDs    []string
 	Fields []string
-	Rich   bool    // richer literals (geojson kinds, odd numbers, unicode)
-	NoTTL  bool    // never generate EX/EXPIRE
+	Rich   bool          // richer literals (geojson kinds, odd numbers, unicode)
+	NoTTL  bool          // never generate EX/EXPIRE
 	Token  func() string // optional: unique token source embedded into a field "tok"
 }
 
